@@ -119,7 +119,7 @@ Proof. reflexivity. Qed.
 
 (** the hypotheses of the main theorems are satisfiable by non-trivial histories *)
 Example chunking_hypotheses_satisfiable :
-  exists (jk : list N) (chunks : list (list N)), List.length jk = algo_B ASHA512 /\ bits_ok chunks /\ List.length chunks = 4%nat /\
+  exists (jk : list N) (chunks : list (list N)), List.length jk = algo_B ASHA512 /\ bits_ok ASHA512 chunks /\ List.length chunks = 4%nat /\
                     List.length (List.concat chunks) = 300%nat /\ In [] chunks.
 Proof.
   exists (junk ASHA512), [repeat 1 111; []; repeat 2 17; repeat 3 172].
